@@ -259,7 +259,7 @@ func (s *loopSum) summariseSeq(effs []ir.Term, ret ir.Term) (string, string) {
 						if s.S(it.Cond) == wantCond && len(te) == 2 && tr == nil {
 							x, spread, okA := appendTo(te[0], resV)
 							mark, okM := te[1].(*ir.AssignT)
-							if okA && !spread && s.S(x) == ev && okM && mark.Op == "=" && s.S(mark.LHS) == s.S(setD.LHS)+"["+ev+"]" && s.S(mark.RHS) == "true" {
+							if okA && !spread && s.S(x) == ev && okM && mark.Op == "=" && s.S(mark.LHS) == s.S(setD.LHS)+"["+ev+"]" && (s.S(mark.RHS) == "true" || s.S(mark.RHS) == "struct{}{}") {
 								if v, ok := isLocal(ret); ok && v == resV && setV != nil {
 									return "DistinctFirst(" + s.S(loop.Over) + ")", ""
 								}
@@ -428,6 +428,102 @@ func checkFOISlice(c *Ctx) {
 func canonLoops(t ir.Term) ir.Term {
 	return ir.Rewrite(t, func(x ir.Term) (ir.Term, bool) {
 		switch y := x.(type) {
+		case *ir.IfT:
+			// `if len(S) == 0 { return nil }` in front of an accumulate loop over S: the loop over an empty S leaves the
+			// accumulator nil as well
+			if c, ok := y.Cond.(*ir.BinOp); ok && c.Op == "==" {
+				if ln, ok := c.L.(*ir.App); ok && len(ln.Args) == 1 {
+					if b, ok := ln.Fun.(*ir.Builtin); ok && b.Name == "len" {
+						if lit, ok := c.R.(*ir.Lit); ok && lit.Val == "0" {
+							isSrc := false
+							switch a := ln.Args[0].(type) {
+							case *ir.Param:
+								isSrc = true
+							case *ir.Field:
+								_, isSrc = a.X.(*ir.Param)
+							}
+							if isSrc {
+								if _, isNil := y.Then.(*ir.Nil); isNil {
+									return canonLoops(y.Else), true
+								}
+							}
+						}
+					}
+				}
+			}
+		case *ir.Seq:
+			// indexed fill: acc := make([]U, len(S)); for i, e := range S { acc[i] = X }  is  acc := nil; for _, e := range S { acc = append(acc, X) }
+			for k := 0; k+1 < len(y.Effs); k++ {
+				d, ok := y.Effs[k].(*ir.AssignT)
+				if !ok || d.Op != ":=" {
+					continue
+				}
+				acc, ok := isLocal(d.LHS)
+				if !ok {
+					continue
+				}
+				mk, ok := d.RHS.(*ir.App)
+				if !ok || len(mk.Args) != 2 {
+					continue
+				}
+				if b, ok := mk.Fun.(*ir.Builtin); !ok || b.Name != "make" {
+					continue
+				}
+				tl, ok := mk.Args[0].(*ir.TypeLit)
+				if !ok {
+					continue
+				}
+				if _, isSlice := tl.Type.Underlying().(*types.Slice); !isSlice {
+					continue
+				}
+				ln, ok := mk.Args[1].(*ir.App)
+				if !ok || len(ln.Args) != 1 {
+					continue
+				}
+				if b, ok := ln.Fun.(*ir.Builtin); !ok || b.Name != "len" {
+					continue
+				}
+				lp, ok := y.Effs[k+1].(*ir.LoopT)
+				if !ok || lp.Over == nil || lp.L == nil || lp.L.Key == nil || ir.String("", lp.Over) != ir.String("", ln.Args[0]) {
+					continue
+				}
+				be, br := effsOf(lp.Body)
+				if len(be) != 1 || br != nil {
+					continue
+				}
+				st, ok := be[0].(*ir.AssignT)
+				if !ok || st.Op != "=" {
+					continue
+				}
+				ix, ok := st.LHS.(*ir.Index)
+				if !ok {
+					continue
+				}
+				if v, ok := isLocal(ix.X); !ok || v != acc {
+					continue
+				}
+				if v, ok := isLocal(ix.I); !ok || v != lp.L.Key {
+					continue
+				}
+				// (the i-th iteration appends the i-th element: the index keeps its meaning in the rewritten loop; it is
+				// dropped from the header when the element expression does not mention it)
+				uses := 0
+				ir.Walk(st.RHS, func(z ir.Term) bool {
+					if w, ok := z.(*ir.Local); ok && w.Obj == lp.L.Key {
+						uses++
+					}
+					return true
+				})
+				key := lp.L.Key
+				if uses == 0 {
+					key = nil
+				}
+				ne := append([]ir.Term{}, y.Effs...)
+				ne[k] = &ir.AssignT{LHS: d.LHS, RHS: &ir.Zero{Type: tl.Type}, Op: ":="}
+				app := &ir.App{Fun: &ir.Builtin{Name: "append"}, Args: []ir.Term{d.LHS, st.RHS}}
+				ne[k+1] = &ir.LoopT{L: &ir.Loop{Key: key, Val: lp.L.Val, Stmt: lp.L.Stmt}, Over: lp.Over, Body: &ir.Seq{Effs: []ir.Term{&ir.AssignT{LHS: d.LHS, RHS: app, Op: "="}}}}
+				return canonLoops(&ir.Seq{Effs: ne, Ret: y.Ret}), true
+			}
 		case *ir.AssignT:
 			if y.Op == ":=" {
 				if app, ok := y.RHS.(*ir.App); ok && (len(app.Args) == 2 || len(app.Args) == 3) {
